@@ -26,7 +26,75 @@ fn picture(n: usize) -> Vec<u8> {
     v
 }
 
+/// `bigreq <n> <where>`: a request of n bytes (one command) sent through the real Client against the server task of this file, either
+/// right after another reply (where = w: inside the re-idle window) or from the idling state (where = i), followed by ordinary
+/// requests.  Prints what each request returned (ok / ack / error) and the session as the server saw it.
+fn run_bigreq(toks: &[&str]) -> String {
+    use mpd_protocol::command::Command as RawCommand;
+    let n: usize = toks.get(1).and_then(|x| x.parse().ok()).unwrap_or(0);
+    let in_window = toks.get(2) == Some(&"w");
+    let rt = tokio::runtime::Builder::new_current_thread().enable_all().build().unwrap();
+    rt.block_on(async move {
+        let (server_io, client_io) = tokio::io::duplex(1 << 16);
+        let server = tokio::spawn(async move {
+            let (rd, mut wr) = tokio::io::split(server_io);
+            let mut rd = BufReader::new(rd);
+            wr.write_all(b"OK MPD 0.23.5\n").await.ok();
+            let mut session: Vec<String> = Vec::new();
+            let mut line = String::new();
+            let mut idle = false;
+            loop {
+                line.clear();
+                match rd.read_line(&mut line).await {
+                    Ok(0) | Err(_) => break,
+                    Ok(_) => {}
+                }
+                let l = line.trim_end_matches('\n');
+                let word = l.split(' ').next().unwrap_or("").to_string();
+                session.push(format!("{}{}", word, if l.len() > 100 { format!("({})", l.len()) } else { String::new() }));
+                match word.as_str() {
+                    "idle" => idle = true,
+                    "noidle" => {
+                        if idle {
+                            wr.write_all(b"OK\n").await.ok();
+                        }
+                        idle = false;
+                    }
+                    _ => {
+                        idle = false;
+                        wr.write_all(b"OK\n").await.ok();
+                    }
+                }
+            }
+            session
+        });
+        let Ok((client, _events)) = Client::connect(client_io).await else { return "connect-error".to_string() };
+        let show = |r: Result<mpd_protocol::response::Frame, mpd_client::client::CommandError>| match r {
+            Ok(_) => "ok".to_string(),
+            Err(e) => format!("err:{}", format!("{e:?}").chars().take(40).collect::<String>().replace(' ', "_")),
+        };
+        let mut results = Vec::new();
+        let big = RawCommand::new("echo").argument("x".repeat(n.saturating_sub(5)));
+        let timeout = std::time::Duration::from_secs(20);
+        if in_window {
+            results.push(tokio::time::timeout(timeout, client.raw_command(RawCommand::new("ping"))).await.map(show).unwrap_or_else(|_| "timeout".into()));
+        } else {
+            tokio::time::sleep(std::time::Duration::from_millis(30)).await;
+        }
+        results.push(tokio::time::timeout(timeout, client.raw_command(big)).await.map(show).unwrap_or_else(|_| "timeout".into()));
+        tokio::time::sleep(std::time::Duration::from_millis(250)).await;
+        results.push(tokio::time::timeout(timeout, client.raw_command(RawCommand::new("status"))).await.map(show).unwrap_or_else(|_| "timeout".into()));
+        tokio::time::sleep(std::time::Duration::from_millis(250)).await;
+        drop(client);
+        let session = tokio::time::timeout(std::time::Duration::from_secs(10), server).await.ok().and_then(|r| r.ok()).unwrap_or_default();
+        format!("results={} session={}", results.join(","), session.join(","))
+    })
+}
+
 pub fn run(toks: &[&str]) -> String {
+    if toks[0] == "bigreq" {
+        return run_bigreq(toks);
+    }
     if toks.len() < 5 {
         return "bad-args".into();
     }
